@@ -2,6 +2,7 @@ package dagsync
 
 import (
 	"context"
+	"time"
 
 	"github.com/ipfs/go-cid"
 	"github.com/ipni/go-libipni/announce"
@@ -17,6 +18,9 @@ func newLiveSub(chain []cid.Cid, maxAsync int) *vSub {
 	verif_Assume(err == nil)
 	v.s.receiver = rcv
 	v.s.watchDone = make(chan struct{})
+	// the cleaner's timer never fires in the model; natively a zero TTL would
+	// make it spin and drop the pre-built handlers
+	v.s.idleHandlerTTL = time.Hour
 	if maxAsync > 0 {
 		v.s.syncSem = make(chan struct{}, maxAsync)
 	}
